@@ -182,3 +182,13 @@ def write_event_jobs(tier):
                  witnesses=["end", "closed on write error", "still open"],
                  bound="ONE process_write on a TCP connection: announced interest READ or READ|WRITE, connected or connecting, "
                        "0/1 queued frame, 0/1 request in flight; the socket accepts any 1..len bytes, would-blocks or refuses")]
+
+def flush_jobs(tier):
+    return [dict(name="readanswers_flush_two", harness="../machine/flush_step.c",
+                 defines=["-DVP_REALLOC_SIZES=32,64", "-DVP_REALLOC_ARRAYCOPY"],
+                 real=LIB, support=SUP, unwind=8, backend="cadical", timeout=1800, mem_gb=8,
+                 replace=["ares_send_query"], replace_with=["sq_stub.c"],
+                 unwindset=UW + ["ares_send_query:4", "ares_requeue_query:3", "memmove.0:34", "memmove.1:34"],
+                 witnesses=["end"],
+                 bound="ONE read_answers with two frames that both defer a resend (TC on UDP); the resends are contract stubs "
+                       "returning any status")]
